@@ -5,6 +5,7 @@ package checks
 import (
 	"context"
 	"math/big"
+	"os"
 	"sort"
 
 	"github.com/massnetorg/mass-core/consensus"
@@ -79,8 +80,15 @@ func fmtAmount(v int64) string { return ref.FormatAmount(big.NewInt(v)) }
 
 var bg = context.Background()
 
+// under the race detector the simulated node does not publish its height into the shared Blockchain
+// object (see sim.Node.publishHeight), which the API handlers read: the API views are off there.
+var apiViewsOff = os.Getenv("VERIF_NO_PUBLISH_HEIGHT") != ""
+
 // auditLedgerAPI compares the API's balance / coin listings of the selected wallet with the model.
 func (w *World) auditLedgerAPI(t *rapid.T, wi int, m *mwallet, coins []*Coin, tip uint64) {
+	if apiViewsOff {
+		return
+	}
 	srv := w.apiSrv(t)
 	want0 := balanceOf(coins, tip, 0)
 	confs := int32(rapid.SampledFrom([]int{0, 1, 2, 3, 5}).Draw(t, "apiConfs"))
@@ -201,6 +209,9 @@ func (w *World) auditLedgerAPI(t *rapid.T, wi int, m *mwallet, coins []*Coin, ti
 // auditHistoriesAPI compares the API's staking / binding history listings (entries and status codes)
 // with the deposits the best chain (+ pending set) holds for the wallet.
 func (w *World) auditHistoriesAPI(t *rapid.T, wi int, m *mwallet, exp []depositRec, minedOnly bool) {
+	if apiViewsOff {
+		return
+	}
 	srv := w.apiSrv(t)
 	tip := w.node.Height()
 	for _, typ := range []string{"all", ""} {
